@@ -211,7 +211,8 @@ def check_C04(ctx, rep):
                     return capped_expr(inner)
                 if is_call(x0, '::min') and len(x0[2]) == 2:
                     a0, a1 = x0[2]
-                    return any(contains(s_, lambda y: is_call(y, 'Dist::sample')) and num(c_) is not None and num(c_) <= day for s_, c_ in ((a0, a1), (a1, a0)))
+                    return any(contains(s_, lambda y: is_call(y, 'Dist::sample') or is_call(y, 'Dist::dist_sample')) and num(c_) is not None and num(c_) <= day
+                               for s_, c_ in ((a0, a1), (a1, a0)))
                 if is_call(x0, '::clamp') and len(x0[2]) == 3:
                     return num(x0[2][2]) is not None and num(x0[2][2]) <= day
                 return False
@@ -246,6 +247,10 @@ def check_C04(ctx, rep):
     check_helpers_ids(ctx, rep, 'C04.R5')
     rep.assumptions += ['f64::round and the float-to-int cast are not evaluated numerically (casts saturate by language definition)',
                         'Duration::from_micros of the caller\'s duration type is monotone']
+    rep.rule('C04.R6', 'the contract holds at the C API as well: convert_action forwards kind, machine, timer, bypass and replace of every '
+             'TriggerAction variant into the same-named field of the same MaybenotAction variant')
+    from .rules_ffi import check_convert_action_table
+    check_convert_action_table(ctx, rep, 'C04.R6')
     return 'who-may-write inventory of the action slots, translation table of schedule_action, clamp shape of the samplers, END absorbing guard'
 
 
@@ -554,6 +559,78 @@ def signal_calls(prog, an):
     return out
 
 
+def signal_filter_ok(ctx, clo, cfn, ca):
+    """closure |&mi| signal.includes(mi) (includes inlined): captures the taken SignalTarget itself; false exactly for
+    AllExcept(e) with e == mi"""
+    prog, an = ctx.prog, ctx.an
+    if len(clo[2]) != 1:
+        return False
+    cap = clo[2][0]
+    # the captured value is (a reference to) the payload of signal_pending.take()
+    parent = None
+    for f in prog.fns.values():
+        if f.key == cfn.parent or cfn.parent in getattr(f, 'inlined', ()):
+            parent = an.get(f)
+    if parent is None:
+        return False
+    capv = cap
+    if cap[0] == 'ref' and cap[1][0] == 'local':
+        vals = [parent.def_value(cap[1][1], b_, k_) for (b_, k_, part) in parent.defs().get(cap[1][1], []) if not part]
+        if len(vals) != 1:
+            return False
+        capv = vals[0]
+    if not (contains(capv, lambda x: is_call(x, 'Option::<T>::take')) and contains(capv, lambda x: isinstance(x, tuple) and x and x[0] == 'fld' and x[3] == 'signal_pending')):
+        return False
+
+    def is_captured(e):
+        # *(env.0) possibly through references
+        return contains(e, lambda y: isinstance(y, tuple) and y and y[0] == 'fld' and y[3] == '0' and unload(y[1]) in (('param', 1), ('deref', ('param', 1)))) and \
+            not contains(e, lambda y: y == ('param', 2))
+
+    def payload(e):
+        e = unload(e)
+        return e[0] == 'fld' and e[3] == '0' and e[1][0] == 'var' and e[1][2] == 'AllExcept' and is_captured(e[1][1])
+
+    def is_arg(e):
+        e = unload(e)
+        while isinstance(e, tuple) and e and e[0] in ('deref', 'load', 'pick', 'refv', 'ref'):
+            e = e[1]
+        return e == ('param', 2)
+    pf = an.paths(cfn)
+    n = 0
+    for (b, k, v) in ret_defs(ca):
+        for S in pf.at(b, k):
+            n += 1
+            is_all = any(f[0] == 'variant' and f[2] == 'All' and is_captured(f[1]) for f in S)
+            is_exc = any(f[0] == 'variant' and f[2] == 'AllExcept' and is_captured(f[1]) for f in S)
+            vv = strip_sites(v)
+            if vv[0] == 'phi':
+                # the value this path assigned (materialised in the return slot of the inlined method)
+                src = 0
+                try:
+                    st_ = ca.blocks[b]['s'][k]
+                    if st_['rv']['k'] == 'use':
+                        pl_ = st_['rv']['x'].get('m') or st_['rv']['x'].get('c')
+                        if pl_ is not None and not pl_['pr']:
+                            src = pl_['l']
+                except (IndexError, KeyError):
+                    pass
+                for f in S:
+                    if f[0] == '~c' and f[1] in (0, src):
+                        vv = ('const', 'bool', 'true' if f[2] == '1' else 'false') if not isinstance(f[2], tuple) else strip_sites(f[2][2])
+            if is_const(vv, 1):
+                ok = is_all or (is_exc and (has_cmp(S, 'ne', payload, is_arg, True) or has_cmp(S, 'eq', payload, is_arg, False)))
+            elif is_const(vv, 0):
+                ok = is_exc and (has_cmp(S, 'eq', payload, is_arg, True) or has_cmp(S, 'ne', payload, is_arg, False))
+            elif vv[0] == 'bin' and vv[1] == 'Ne':
+                ok = is_exc and ((payload(vv[2]) and is_arg(vv[3])) or (payload(vv[3]) and is_arg(vv[2])))
+            else:
+                ok = False
+            if not ok:
+                return False
+    return n >= 2
+
+
 def filter_excludes_only(ctx, clo):
     """closure value `clo` = |&mi| excluded != Some(mi) where the captured `excluded` is
     None | Some((taken signal as AllExcept).0)"""
@@ -565,6 +642,8 @@ def filter_excludes_only(ctx, clo):
     rets = [v for (b, k, v) in ret_defs(ca)]
     if len(rets) != 1:
         return False
+    if signal_filter_ok(ctx, clo, cfn, ca):
+        return True
     r = rets[0]
     neg = False
     if r[0] == 'un' and r[1] == 'Not':
@@ -936,6 +1015,54 @@ def check_every_event_processed(ctx, rep, rid):
     rep.ob(rid, te, 'event-loop-not-conditional-on-machine-state', not guards, '%d guarding branches' % len(guards))
 
 
+MACHINE_LIMITS = ('max_padding_frac', 'max_blocking_frac', 'allowed_padding_packets')
+SHARED_ACCOUNTING = ('padding_sent_packets', 'normal_sent_packets', 'framework_start')
+
+
+def check_own_accounting(ctx, rep, rid):
+    """a machine's own limits are compared with that machine's own accounting only"""
+    prog, an = ctx.prog, ctx.an
+    rep.rule(rid, 'the limits a machine declares for itself (Machine::max_padding_frac, max_blocking_frac, allowed_padding_packets, and the '
+             'per-machine allowed_blocked_microsec) are compared with quantities computed from that machine\'s own runtime and the clock only: no '
+             'framework-wide packet counter or blocked duration occurs in such a comparison (else a neighbour changes what the machine may do)')
+    from .rules_gate import GATE_FNS
+    fns = [prog.fn_opt(FW, 'Framework', n) for n in ('below_limit_padding', 'below_limit_blocking', 'below_action_limits')]
+    fns = [f for f in fns if f is not None]
+    if len(fns) < 3:
+        # restructured predicates: judge the composite of transition
+        prog2, an2 = ctx.composite(GATE_FNS)
+        fns = [prog2.fn(FW, 'Framework', 'transition')]
+        an = an2
+    n = 0
+    for fn in fns:
+        fa = an.get(fn)
+        # locals that accumulate the framework-wide blocked duration
+        shared_locals = set()
+        for (pe, v, site, mp) in stores(fa):
+            if pe[0] == 'local' and not mp['pr'] and is_field(unload(v), 'blocking_duration', 'Framework'):
+                shared_locals.add(pe[1])
+        for (b, e) in switch_conditions(fa):
+            e2 = strip_sites(e)
+            if e2[0] == 'bin':
+                sides = (e2[2], e2[3])
+            elif e2[0] == 'call' and len(e2[2]) == 2 and any(e2[1].endswith(x) for x in ('::lt', '::le', '::gt', '::ge', '::eq', '::ne')):
+                sides = e2[2]
+            else:
+                continue
+            for own, other in ((sides[0], sides[1]), (sides[1], sides[0])):
+                mine = any(is_field(own, f_, 'Machine') for f_ in MACHINE_LIMITS) or is_field(own, 'allowed_blocked_microsec', 'MachineRuntime') or \
+                    (own[0] in ('ref', 'refv') and (any(is_field(own[1], f_, 'Machine') for f_ in MACHINE_LIMITS) or is_field(own[1], 'allowed_blocked_microsec', 'MachineRuntime')))
+                if not mine or num(other) is not None:
+                    continue
+                n += 1
+                bad = [x for x in walk(other) if isinstance(x, tuple) and x and
+                       ((x[0] == 'fld' and x[2].endswith('Framework') and x[3] in SHARED_ACCOUNTING + ('blocking_duration',)) or
+                        (x[0] == 'local' and x[1] in shared_locals))]
+                rep.ob(rid, fn, 'own-limit-vs-own-accounting:' + shape(own)[-40:], not bad,
+                       '%s compared with %s' % (shape(own), shape(other)[:120]) + ('' if not bad else ' -- reads framework-wide %s' % shape(bad[0])))
+    rep.count_floor(rid, 'comparisons of a machine\'s own limits', n, 3)
+
+
 def check_C10(ctx, rep):
     prog, an = ctx.prog, ctx.an
     F = fw_fns(prog)
@@ -1021,7 +1148,10 @@ def check_C10(ctx, rep):
                         if basef and basef[1] in PER_MACHINE_VECS and (basef[0].endswith('Framework')):
                             seen_ix += 1
                             if name.startswith('below_'):
-                                rep.ob('C10.R2', fn, 'index:' + basef[1], False, 'limit predicate indexes %s directly' % basef[1])
+                                # the predicates normally receive &runtime[mi] / &machines[mi]; handed the index itself they
+                                # may index with exactly that parameter
+                                own = len(fn.inputs) >= 2 and fn.inputs[1] == 'usize' and x[2] == ('param', 2)
+                                rep.ob('C10.R2', fn, 'index:' + basef[1], own, 'limit predicate indexes %s with %s' % (basef[1], show(x[2])))
                             else:
                                 rep.ob('C10.R2', fn, 'index:' + basef[1], x[2] == ('param', 2), '%s indexed with %s' % (basef[1], show(x[2])))
         if not name.startswith('below_'):
@@ -1114,6 +1244,7 @@ def check_C10(ctx, rep):
     check_every_event_processed(ctx, rep, 'C10.R3')
     rep.assumptions += ['the framework-wide fraction limits are a sanctioned coupling (reads of the global counters in the limit predicates)',
                         'shared blocking state reported by the integrator is a sanctioned coupling']
+    check_own_accounting(ctx, rep, 'C10.R4')
     return 'inventory of shared writes and index uses in the per-machine step functions; delivery completeness of global events'
 
 
@@ -1257,6 +1388,11 @@ def check_C06(ctx, rep):
     rep.ob('C06.R1', 'constants', 'EVENT_NUM-equals-variants', int(prog.const_val('maybenot::constants::EVENT_NUM')) == n_ev, 'EVENT_NUM vs %d Event variants' % n_ev)
     rep.assumptions += ['the measure of each target over the draw values (f32 sums, rand float generation) is not decided',
                         'probabilities are validated by C12']
+    rep.rule('C06.R5', 'premise: the vectors sample_state walks were accepted by State::validate, which lets a transition pass only with a '
+             'NaN-safely established probability in (0, 1], a target in range or a pseudo state, no duplicate target, and a vector sum <= 1 '
+             '(a NaN probability would make every later target unreachable)')
+    from .rules_valid import check_state_vectors
+    check_state_vectors(ctx, rep, 'C06.R5', 'C06.R5')
     return 'sampling skeleton of State::sample_state: selection, half-open draw, update-before-compare order, strictness, target identity, residual None'
 
 
@@ -1289,7 +1425,7 @@ def check_C05(ctx, rep):
         cname = caller.short() if caller else k
         if kind == 'hash-order' and caller is not None and caller.crate == FW and caller.name == 'validate' and (caller.impl_adt or '').endswith('State'):
             m = path.split('::')[-1]
-            ok = m in ('new', 'contains', 'insert') and 'HashSet' in path
+            ok = m in ('new', 'with_capacity', 'contains', 'insert', 'len', 'is_empty') and 'HashSet' in path
             sanction_hits += 1
             rep.ob('C05.R1', caller, 'sanctioned-hashset:' + m, ok, 'HashSet used for membership only (%s)' % path)
             continue
@@ -1345,7 +1481,24 @@ def check_C05(ctx, rep):
     rep.assumptions += ['agreement with the documented operational semantics over histories is NOT decided (needs an executable reference)',
                         'std functions without MIR in the facts are judged by name against the effect-source table',
                         "the caller's R, T, M implementations are pure functions of their own state"]
-    return 'ambient-effect closure of the framework entry points over the cross-crate call graph; derived clones; processing-order skeleton'
+    # the stated semantics themselves: the clauses C05 names are decided by the rule sets of their own properties; a change that breaks
+    # one of them changes the actions a given input history produces
+    rep.rule('C05.R4', 'the operational semantics clauses named by the property hold: limits and LimitReached (rules of C07), counters and '
+             'CounterZero (C08), the signal round (C09), delivery of every event to every machine in index order (C10), the padding and '
+             'blocking budgets that decide whether an action is returned (C02, C03) and the shape of a returned action (C04)')
+    from .report import Report
+    from .rules_limits import check_C07, check_C02, check_C03
+    for (pid2, chk) in (('C02', check_C02), ('C03', check_C03), ('C04', check_C04), ('C07', check_C07), ('C08', check_C08), ('C09', check_C09), ('C10', check_C10)):
+        sub = Report(rep.pid, rep.tier)
+        try:
+            chk(ctx, sub)
+        except AnchorMissing as e:
+            sub.fail_closed(pid2 + '.anchor', str(e))
+        bad = sub.failing()
+        rep.ob('C05.R4', '<semantics>', 'clauses-of-' + pid2, not bad,
+               '%d obligations of %s judged' % (len(sub.obligations), pid2) + ('' if not bad else '; first failing: %s at %s: %s' % (bad[0]['rule'], bad[0]['fn'], bad[0]['construct'])))
+        rep.functions |= sub.functions
+    return 'ambient-effect closure of the framework entry points over the cross-crate call graph; derived clones; processing-order skeleton; semantics clauses of C07-C10'
 
 
 # =================================================================== shared helper-contract rules
